@@ -164,6 +164,9 @@ def impl_record(sc, envF, envP, st, a, uval, frame_log):
     return rec, ns, info
 
 
+REVISIT = 4
+
+
 def explore(sc, max_states, res):
     """BFS through generative_step; returns (queries, impl records, states)"""
     envF = NASimEnv(sc, fully_obs=True, flat_actions=True, flat_obs=False)
@@ -188,6 +191,23 @@ def explore(sc, max_states, res):
                 if k not in seen and len(seen) < max_states:
                     seen[k] = ns
                     queue.append(ns)
+    # second pass: the same environment objects have by now seen every explored state; the earliest
+    # states (fewest compromised hosts) are stepped again, so that anything the implementation
+    # remembers across calls (memo tables, caches keyed without the state) meets a state it does not fit
+    early = list(seen.values())[:REVISIT]
+    first = {q: r for q, r in zip(queries, records)}
+    for st in reversed(early):
+        d0 = C.dyn_of(envF, st)
+        for a, tk in zip(acts, toks):
+            for uval in (0.0, float(np.nextafter(1.0, 0.0))):
+                rec, ns, info = impl_record(sc, envF, envP, st, a, uval, frame_log)
+                q = "Q " + " ".join(map(str, d0 + tk + [C.fr(uval)]))
+                if q in first and first[q] != rec:
+                    frame_log.append("generative_step is not a function of (state, action, draw): the same call "
+                                     "returned something else after other states had been stepped")
+                queries.append(q)
+                records.append(rec)
+                meta.append(outcome_class(a, info))
     res["frame_violations"] += [dict(what=w) for w in sorted(set(frame_log))]
     return queries, records, meta, len(seen), envF
 
